@@ -40,7 +40,7 @@ def run_jobs(jobs: list, *, n_devices: int = 1, nproc: int | None = None, timeou
     return jobs2, traces
 
 
-STRIP = ("scale_exp", "error", "inexact_at", "out_len", "tag", "startok", "inject_no")
+STRIP = ("quotient_of", "scale_exp", "error", "inexact_at", "out_len", "tag", "startok", "inject_no")
 
 
 def judge(rep: C.Report, jobs, traces, *, module="SolverTrace", prop_clauses=None,
